@@ -1146,6 +1146,8 @@ func (e *exec) nonTrivial() bool {
 		return e.res.Counters["samples_deleted"] > 0 && e.compactions > 0 && e.restarts > 0
 	case "C52":
 		return e.res.Counters["counter_checks"] > 10 && e.restarts > 0
+	case "C24":
+		return e.res.Counters["block_damage_reported"] > 0 && e.res.Counters["blocks_read_back"] > 0
 	case "C22":
 		return e.res.Counters["stale_ref_appends"] > 0 && e.res.Counters["series_recreated_appends"] > 0 && e.restarts > 0
 	case "C16":
